@@ -1,6 +1,7 @@
 use crate::common::Emitter;
 pub mod c13;
 pub mod c14;
+pub mod c19;
 
 /// run one case line (from a replay file or the corpus) against the implementation
 pub fn replay(prop: &str, line: &str, em: &mut Emitter) {
@@ -9,6 +10,7 @@ pub fn replay(prop: &str, line: &str, em: &mut Emitter) {
     match toks[0] {
         "tpkt_read" | "x224_read" => c13::run_case(&toks, em),
         "tpkt_write" | "x224_write" => c14::run_case(&toks, em),
+        "blit" => c19::run_case(&toks, em),
         _ => { let _ = prop; eprintln!("unknown op {}", toks[0]); }
     }
 }
@@ -18,6 +20,7 @@ pub fn generate(prop: &str, thorough: bool, seed: u64, em: &mut Emitter) {
     match prop {
         "C13" => c13::generate(thorough, seed, part, em),
         "C14" => c14::generate(thorough, seed, part, em),
+        "C19" => c19::generate(thorough, seed, part, em),
         _ => { eprintln!("unknown property {}", prop); std::process::exit(2); }
     }
 }
